@@ -74,7 +74,7 @@ def _witnesses(base_cfg, wd, with_al):
         return name, ok, r
 
     out = []
-    with cf.ThreadPoolExecutor(max_workers=6) as ex:
+    with cf.ThreadPoolExecutor(max_workers=3) as ex:
         for name, ok, r in ex.map(one, jobs.items()):
             if not ok:
                 raise vlib.Inconclusive("witness %s not found (vacuity): exit %s\n%s" % (name, r.exit, r.output[-1500:]))
@@ -174,8 +174,8 @@ def run(tier, seed, replay=None):
                 "status reload, reader, monitors and faults within the constants); TLC writes %d session vectors "
                 "(chunking x outcome x offset x moment) and %d fault schedules. A seeded subset of the (chunking, outcome) groups "
                 "x {small, boundary(64 KiB), huge} concretisations is run against a real daemon with ALL of the group's offsets and "
-                "moments as concurrent 'work results' sessions (plus a neighbouring offset each); a seeded subset of the fault "
-                "schedules is replayed on three real daemons over cuttable relays. evaluations = sessions + scenarios judged; "
+                "moments as concurrent 'work results' sessions (plus a neighbouring offset each); a seeded subset (thorough: all) of the "
+                "fault schedules is replayed on three real daemons over cuttable relays. evaluations = sessions + scenarios judged; "
                 "distinct = distinct (kind, chunking, outcome, offset class, moment) sessions plus distinct fault schedules" % (cfg, nvec, nsched),
         "samples": samples, "exhaustive": False,
         "spec_exhaustive_within_constants": True,
